@@ -30,8 +30,24 @@ Definition parse_version (v : bytes) : vres :=
 
 Inductive verdict := Match | NoMatch | Unspec.
 
-(* incoming: the stream identifier; name/supported: the handler's StreamDesc *)
+(* incoming: the stream identifier; name/supported: the handler's StreamDesc.
+   The identifier must be /name/version: three '/'-separated segments, the first one empty. *)
 Definition match_id (incoming name supported : bytes) : verdict :=
+  match split slash incoming with
+  | [[]; n; v] =>
+      if bytes_eqb n name then
+        match parse_version supported, parse_version v with
+        | VErr, _ => NoMatch
+        | _, VErr => NoMatch
+        | VNum SM Sm _, VNum PM Pm _ => if (SM =? PM) && (Pm <=? Sm) then Match else NoMatch
+        | _, _ => Unspec
+        end
+      else NoMatch
+  | _ => NoMatch
+  end.
+
+(* before the repair 6f7f755: the segment in front of the first '/' was not looked at *)
+Definition match_id_v1 (incoming name supported : bytes) : verdict :=
   match split slash incoming with
   | [_; n; v] =>
       if bytes_eqb n name then
@@ -53,7 +69,7 @@ Definition proto_id (n : bytes) (M m p : N) : bytes :=
 
 (* --- the function with its crash points explicit -------------------------------------------------
    matchProtocolIDWithSemver indexes parts[1] and parts[2]; an index outside the slice is a Go run-time
-   panic.  [index_o] is that indexing statement.  The version library (semver.NewVersion) is an argument
+   panic, and so would parts[0] be.  [index_o] is that indexing statement.  The version library (semver.NewVersion) is an argument
    [nv] of the generic function: it answers with a parse result, or is itself the crash point [Panic]. *)
 Definition index_o (parts : list bytes) (i : nat) : outcome bytes :=
   match nth_error parts i with Some s => Ok s | None => Panic end.
@@ -66,24 +82,33 @@ Definition decide (sv pv : vres) : verdict :=
   | _, _ => Unspec
   end.
 
+Definition is_nil (l : bytes) : bool := match l with [] => true | _ => false end.
+
 Definition match_id_gen (nv : bytes -> outcome vres) (incoming name supported : bytes) : outcome verdict :=
   let parts := split slash incoming in
-  if negb (Nat.eqb (length parts) 3) then Ok NoMatch            (* return false, error *)
+  if negb (Nat.eqb (length parts) 3) then Ok NoMatch            (* len(parts) != 3 || ... : return false, error *)
   else
-    match index_o parts 1 with                                  (* protocolName := parts[1] *)
-    | Ok n =>
-        match index_o parts 2 with                              (* protocolVersion := parts[2] *)
-        | Ok v =>
-            if negb (bytes_eqb n name) then Ok NoMatch
-            else match nv supported with
-                 | Ok sv => match nv v with
-                            | Ok pv => Ok (decide sv pv)
-                            | Err c => Err c
-                            | Panic => Panic
-                            end
-                 | Err c => Err c
-                 | Panic => Panic
-                 end
+    match index_o parts 0 with                                  (* ... || parts[0] != "" *)
+    | Ok p0 =>
+      if negb (is_nil p0) then Ok NoMatch
+      else
+        match index_o parts 1 with                              (* protocolName := parts[1] *)
+        | Ok n =>
+            match index_o parts 2 with                          (* protocolVersion := parts[2] *)
+            | Ok v =>
+                if negb (bytes_eqb n name) then Ok NoMatch
+                else match nv supported with
+                     | Ok sv => match nv v with
+                                | Ok pv => Ok (decide sv pv)
+                                | Err c => Err c
+                                | Panic => Panic
+                                end
+                     | Err c => Err c
+                     | Panic => Panic
+                     end
+            | Err c => Err c
+            | Panic => Panic
+            end
         | Err c => Err c
         | Panic => Panic
         end
@@ -94,7 +119,7 @@ Definition match_id_gen (nv : bytes -> outcome vres) (incoming name supported : 
 (* the same body without the length test: what the guard is there for *)
 Definition match_id_unguarded (nv : bytes -> outcome vres) (incoming name supported : bytes) : outcome verdict :=
   let parts := split slash incoming in
-  match index_o parts 1 with
+  match index_o parts 1 with                                    (* (parts[0] always exists: Split never answers an empty slice) *)
   | Ok n =>
       match index_o parts 2 with
       | Ok v => if negb (bytes_eqb n name) then Ok NoMatch
